@@ -230,11 +230,61 @@ def lifted_big(ctx, s, classify, big):
                           f"got {got.get(k)} want {want.get(k)}", rp)
 
 
+def inp_ok_for_huge(s):
+    i = s["inp"]
+    return i["engine"] in ("symdel", "kd") and i["mode"] == "lev" and i["k"] == 1 and not i["two"] and i.get("comp", 1) == 1 and s["letters"] == AA
+
+
+def filler(i):
+    """the i-th of 3^10 pairwise distant strings of length 40: slot s holds letter 2s repeated 2d times and letter 2s+1 repeated
+    2(2-d) times, d the s-th ternary digit of i. Two different fillers differ in some digit, so their letter counts differ by at
+    least 4 in total; one edit changes the counts by at most 2 in total (the specification's CompositionLemma), hence their
+    Levenshtein (and Hamming) distance is at least 2."""
+    out = []
+    for s_ in range(10):
+        i, d = divmod(i, 3)
+        out.append(AA[2 * s_] * (2 * d) + AA[2 * s_ + 1] * (2 * (2 - d)))
+    return "".join(out)
+
+
+def huge_sparse(ctx, s, classify, n_fill=50000):
+    """tens of thousands of positions (products of positions beyond 2^31): fillers that are neighbours of nothing at max_edits = 1,
+    followed by the sequences of an ACCEPTED session; the exact answer is the accepted answer shifted by the number of fillers."""
+    inp = s["inp"]
+    join = next(e for e in s["events"] if e["op"] == "Join")
+    letters, api = s["letters"], (s["api"] or None)
+    strs = [nc.dec(x, letters) for x in inp["seqs"]]
+    if any(len(x) > 30 for x in strs):
+        return
+    want = {(a + n_fill, b + n_fill): d for a, b, d in join["ret"]}
+    import pyrepseq.nn as nn
+    big = [filler(i) for i in range(n_fill)] + strs
+    fn = {"nearest_neighbor": nn.nearest_neighbor, "symdel": nn.symdel, None: nn.symdel if inp["engine"] == "symdel" else nn.kdtree, "kdtree": nn.kdtree}[api]
+    desc = f"{fn.__name__}({n_fill} pairwise distant fillers + {strs[:6]}.., max_edits=1)"
+    ctx.case(dict(kind="huge", call=desc, positions=len(big), expect_pairs=len(want)), nontrivial=len(want) > 0)
+    ctx.extra.setdefault("lifted_large_inputs", []).append(dict(engine=inp["engine"], mode=inp["mode"], two=False, k=1, positions=len(big), expected_pairs=len(want)))
+    rp = dict(kind="huge", session=s, n_fill=n_fill)
+    try:
+        got_l = nc.norm_triplets(fn(big, max_edits=1), inp["mode"])
+    except Exception as e:      # noqa: BLE001
+        ctx.violation(classify(inp, "raised") + "/large-input", f"{desc} raised {type(e).__name__}: {e}"[:500], rp)
+        return
+    got = {(a, b): d for a, b, d in got_l}
+    for name, lst in (("missing_pair", [k for k in want if k not in got]), ("spurious_pair", [k for k in got if k not in want]),
+                      ("entry_differs", [k for k in want if k in got and got[k] != want[k]])):
+        if lst:
+            ctx.violation(classify(inp, name) + "/large-input", f"{desc}: {len(lst)} x {name}, e.g. positions {lst[0]}: got {got.get(lst[0])} want {want.get(lst[0])}", rp)
+
+
 def judge_sessions(ctx, sessions, verdicts, classify=default_classify, lifted=None):
     lifted = (2 if ctx.quick else 10) if lifted is None else lifted
     for s in sessions:
         api, drift = nc.failed_api_clauses(verdicts[s["sid"]])
         ctx.traces += 1
+        if (not getattr(ctx, "_huge_done", False) and not api and s.get("kind") == "plain" and inp_ok_for_huge(s) and 3 <= len(s["inp"]["seqs"]) <= 60
+                and sum(1 for e in s["events"] if e["op"] == "Join" and not e["raised"]) == 1 and any(e["op"] == "Join" and e["ret"] for e in s["events"])):
+            ctx._huge_done = True
+            huge_sparse(ctx, s, classify, 50000 if ctx.quick else 70000)
         if (lifted > 0 and not api and s.get("kind") == "plain" and s["inp"]["mode"] in ("lev", "hamming") and 4 <= len(s["inp"]["seqs"]) <= 40
                 and (s["inp"]["engine"] != "hash" or s["inp"]["k"] == 1) and not any(e["op"] == "Join" and e["raised"] for e in s["events"])
                 and sum(1 for e in s["events"] if e["op"] == "Join") == 1 and (not s["inp"]["two"] or len(s["inp"]["seqs2"]) <= 40)):
